@@ -155,7 +155,12 @@ def tags(prog):
                     inner = _names_after(inner, x)
                 if set(n for n in inner if n) & set(n for n in names if n):
                     t.add("join-shared-names")
-            if op in ("join", "append"):
+            if op in ("remove", "intersect"):
+                t.add("setop:" + op)
+                # k is a key of t and of u: with it in the frame the rows of the top relation are pairwise different
+                if "k" in names and depth == 0 and steps[0]["op"] == "from":
+                    t.add("setop-top-has-key")
+            if op in ("join", "append", "remove", "intersect"):
                 walk(s["with"], [], depth + 1)
             names = _names_after(names, s)
         return names
